@@ -837,6 +837,10 @@ impl Operation {
                 w.write_sleb128(byte_offset)?;
             }
             Operation::Piece { size_in_bytes } => {
+                // The size in bits must fit in a u64 to be read back.
+                if size_in_bytes > u64::MAX / 8 {
+                    return Err(Error::ValueTooLarge);
+                }
                 w.write_u8(constants::DW_OP_piece.0)?;
                 w.write_uleb128(size_in_bytes)?;
             }
